@@ -254,3 +254,32 @@ for cls in (RX + 'Reaction', RX + 'ChemkinReaction', OM + 'SurfaceReaction'):
 
 from contracts import helpers
 helpers.install(P, 'kwargs', 'numpy_op', 'references')
+
+# ---- four and more occupied sites (every reactant site counts, whatever the number) -----------------------------------------------
+for stoichs in ((1, 1, 1, 1), (3, 1), (2, 2, 1), (5,)):
+    n_surf = sum(stoichs)
+    for op in ('sum', 'min', 'mean'):
+        contract(RX + 'ChemkinReaction.get_A', P, label='no-TS[n_surf=%s,%s]' % ('+'.join(map(str, stoichs)), op),
+                 args=dict(self=surf_rxn(stoichs, False), sden_operation=Const(op), T=T),
+                 requires=['T > 0'] + ['self.reactants[%d].cat_site.site_density > 0' % (k + 1) for k in range(len(stoichs))],
+                 ensures=[('kB/h-per-unit-temperature-times-site-density-power',
+                           'result * spec.rxn.eff_site_density(self, %r) ** %d == %s' % (op, n_surf - 1, KBH)),
+                          ('positive', 'result > 0')], cross_check=False)
+        contract(OM + 'SurfaceReaction.get_A', P, label='no-TS[n_surf=%s,%s,str:mol/cm2]' % ('+'.join(map(str, stoichs)), op),
+                 args=dict(self=omkm_rxn(stoichs), T=T, units=Const('mol/cm2'), sden_operation=Const(op), include_entropy=Const(False)),
+                 ghost=dict(terrace=TERR_), requires=['T > 0', 'terrace.site_density > 0'],
+                 ensures=[('kB/h-over-(effective-site-density)^(n_surf-1)',
+                           'result * (terrace.site_density * %s) ** %d == %s' % (str(n_surf) if op == 'sum' else '1', n_surf - 1, KBH)),
+                          ('positive', 'result > 0')], cross_check=False)
+
+# ---- pre-exponential factor by the entropy route when the transition state is a BEP relation, both directions and entropy states ----
+for d in ('delta_H', 'rev_delta_H'):
+    for rev in (False, True):
+        for es in (None, 'reactants', 'products'):
+            extra = {} if es is None else {'entropy_state': Const(es)}
+            call = 'rev=rev, act=True, T=T, P=P' + ('' if es is None else ', entropy_state=entropy_state')
+            contract(RX + 'Reaction.get_A', P, label='entropy-route,BEP[%s],rev=%s,entropy_state=%s' % (d, rev, es),
+                     args=dict(self=bep_rxn(d), T=T, rev=Const(rev), m=Real(0., 3.), use_q=Const(False), P=PR, **extra),
+                     requires=['T > 0'],
+                     ensures=[('(kT/h)exp(dS_act+m)', 'result == %s * T * exp(self.get_delta_SoR(%s) + m)' % (KBH, call)),
+                              ('positive', 'result > 0')], cross_check=False)
